@@ -138,3 +138,50 @@ func vpC12_O3() {
 		}
 	}
 }
+
+func init() {
+	vpHarnesses["vpC12_O4"] = vpC12_O4
+}
+
+// C12-O4: a prover who knows the credential but not a square decomposition
+// attaches a range proof with degenerate commitments C_i = 0 (or N): every
+// reconstructed commitment then collapses to 0 whatever K and the responses
+// are, so the prover can hash zeros into the challenge. If such a proof is
+// accepted its statement must still be true of the signed value.
+func vpC12_O4() {
+	pk, sk := vpKeys(0, 3, 1024, false)
+	cred := vpCredential(pk, sk, "a", 1, 256)
+	ctx, nonce := vpBigBits("ctx", 256), vpBigBits("nonce", 80)
+	b, err := cred.CreateDisclosureProofBuilder(nil, nil, false)
+	vpAssume(err == nil)
+	commit, err := b.Commit(map[string]*big.Int{"secretkey": vpBigBits("r0", 592)})
+	vpAssume(err == nil)
+	n := 3 + vpChoose("fourSquares", 2)
+	zero := big.NewInt(0)
+	if vpBool("useN") {
+		zero = pk.N
+	}
+	contribs := append([]*big.Int{}, commit...)
+	for i := 0; i < 1+n; i++ {
+		contribs = append(contribs, big.NewInt(0))
+	}
+	c := createChallenge(ctx, nonce, contribs, false)
+	vpAssume(c.Sign() != 0)
+	proof := b.CreateProof(c).(*ProofD)
+	K := vpBigBits("K", 300)
+	rp := &rangeproof.Proof{V5Response: big.NewInt(1), Ld: 128, Sign: 1, A: 1, K: K}
+	if n == 3 {
+		rp.A = 4
+	}
+	for i := 0; i < n; i++ {
+		rp.Cs = append(rp.Cs, zero)
+		rp.DResponses = append(rp.DResponses, big.NewInt(1))
+		rp.VResponses = append(rp.VResponses, big.NewInt(1))
+	}
+	proof.RangeProofs = map[int][]*rangeproof.Proof{1: {rp}}
+	if !proof.Verify(pk, ctx, nonce, false) {
+		return
+	}
+	typ, factor, bound := rp.ProvenStatement()
+	vpAssert("accepted range proof with degenerate commitments still states a truth", vpHoldsStatement(typ, factor, bound, cred.Attributes[1]))
+}
